@@ -442,6 +442,21 @@ func recLen(p *flowProto, t tpl) int { // -1 = variable
 	return n
 }
 
+// minRecLen: the shortest record the template can describe (a variable-length field takes at least its
+// one-octet length prefix)
+func minRecLen(p *flowProto, t tpl) int {
+	n := 0
+	for _, s := range t.all() {
+		ty, _ := elemType(s)
+		if p.isIPFIX && s.ln == 65535 && (ty == ipfix.String || ty == ipfix.OctetArray) {
+			n++
+			continue
+		}
+		n += s.ln
+	}
+	return n
+}
+
 // allKnown: every element is in the information model and the 65535 marker is used only where it
 // means "variable length" (IPFIX string / octetArray)
 func allKnown(p *flowProto, t tpl) bool {
